@@ -12,9 +12,15 @@ Open Scope Z_scope.
 (* the uncompressed file is the instance "payload = the records"                         *)
 (* ------------------------------------------------------------------------------------ *)
 Lemma file_of_gfile ap h vl fmt recs evl : file_of ap h vl fmt recs evl = gfile ap h vl fmt recs evl (concat recs).
-Proof. reflexivity. Qed.
+Proof. unfold file_of, gfile, lz_set_ev. cbv zeta. reflexivity. Qed.
 Lemma final_hdr_gfinal ap h vl fmt recs evl : final_hdr ap h vl fmt recs evl = gfinal_hdr ap h vl fmt recs evl (concat recs).
-Proof. reflexivity. Qed.
+Proof. unfold final_hdr, gfinal_hdr, lz_set_ev. cbv zeta. reflexivity. Qed.
+
+Lemma with_stats_plain h st n : In n ["version.minor"; "point_format_id"; "point_size"]%string ->
+  aint (with_stats h st) n = aint h n.
+Proof.
+  intros [<-|[<-|[<-|[]]]]; apply aint_with_stats_other; try reflexivity; try axis_ne; ret_ne.
+Qed.
 
 (* gfile and gfinal_hdr, spelled out (RoundTripProofs.file_of_inv with the payload left abstract) *)
 Lemma gfile_inv ap h vl fmt recs evl payload f h' :
@@ -48,25 +54,13 @@ Proof.
   rewrite with_stats_offset in L1'.
   pose proof (enc_header_len _ _ _ _ _ E0) as L0.
   assert (len bs = len b0) as Lb by lia.
-  assert (forall n, String.eqb "offset_to_point_data" n = false -> String.eqb "header_size" n = false ->
-                    String.eqb "number_of_vlrs" n = false ->
-                    (forall i, String.eqb (axis_name "maxs" i) n = false) -> (forall i, String.eqb (axis_name "mins" i) n = false) ->
-                    (forall i, String.eqb (by_return_name i) n = false) ->
-                    String.eqb "point_count" n = false -> String.eqb "start_of_first_evlr" n = false ->
-                    String.eqb "number_of_evlrs" n = false ->
-                    aint h1 n = aint h n) as Hplain.
-  { intros n A1 A2 A3 A4 A5 A6 A7 A8 A9.
-    rewrite (enc_header_keeps _ _ _ _ _ n E1) by assumption.
-    rewrite aint_with_stats_other by assumption.
-    rewrite (enc_header_keeps _ _ _ _ _ n E0) by assumption.
-    now apply aint_with_stats_other. }
   split; [exact E1|]. split; [reflexivity|]. split; [reflexivity|]. split; [exact L1|].
   split.
   { rewrite (enc_header_keeps _ _ _ _ _ "point_count" E1) by reflexivity.
     rewrite with_stats_count. destruct evl; cbn [st lz_set_ev s_count]; apply stats_of_count. }
-  split; [apply Hplain; try reflexivity; try (intros i; axis_ne); intros i; ret_ne|].
-  split; [apply Hplain; try reflexivity; try (intros i; axis_ne); intros i; ret_ne|].
-  split; [apply Hplain; try reflexivity; try (intros i; axis_ne); intros i; ret_ne|].
+  split; [now rewrite (enc_header_keeps _ _ _ _ _ _ E1), with_stats_plain, (enc_header_keeps _ _ _ _ _ _ E0), with_stats_plain by (cbn; tauto)|].
+  split; [now rewrite (enc_header_keeps _ _ _ _ _ _ E1), with_stats_plain, (enc_header_keeps _ _ _ _ _ _ E0), with_stats_plain by (cbn; tauto)|].
+  split; [now rewrite (enc_header_keeps _ _ _ _ _ _ E1), with_stats_plain, (enc_header_keeps _ _ _ _ _ _ E0), with_stats_plain by (cbn; tauto)|].
   split.
   { intros ->. rewrite (enc_header_keeps _ _ _ _ _ "number_of_evlrs" E1) by reflexivity.
     rewrite with_stats_nevlr. apply stats_of_nevlr. }
@@ -75,4 +69,99 @@ Proof.
     rewrite with_stats_nevlr. reflexivity.
   - rewrite (enc_header_keeps _ _ _ _ _ "start_of_first_evlr" E1) by reflexivity.
     rewrite with_stats_evlr_start. cbn [st lz_set_ev s_evlr_start]. lia.
+Qed.
+
+(* ------------------------------------------------------------------------------------ *)
+(* what the header decoder says about compression                                        *)
+(* ------------------------------------------------------------------------------------ *)
+Lemma dec_header_comp src b rh : dec_header src b = Ok rh ->
+  rh_compressed rh = is_point_format_compressed (aint (rh_fields rh) "point_format_id")
+  /\ rh_fmt rh = compressed_id_to_uncompressed (aint (rh_fields rh) "point_format_id").
+Proof.
+  unfold dec_header. cbv zeta.
+  destruct (length (firstn 4 (firstn 227 src)) =? 0)%nat; [discriminate|].
+  destruct (negb (list_eqb (firstn 4 (firstn 227 src)) LASF)); [discriminate|].
+  destruct (length (firstn 227 src) <? 227)%nat; [discriminate|].
+  set (stream := if le_dec (firstn 4 (skipn 96 (firstn 227 src))) <? 227 then src
+                 else firstn (Z.to_nat (le_dec (firstn 4 (skipn 96 (firstn 227 src))))) src).
+  set (mnr := le_dec (firstn 1 (skipn 25 stream))).
+  destruct (dec_fields (fixed_part (hr_layout mnr)) stream) as [a rest] eqn:Ed.
+  destruct (len stream - len rest >? aint a "header_size"); [discriminate|].
+  destruct (aint a "number_of_vlrs" >? MAX_VLRS); [discriminate|].
+  destruct (dec_vlrs false (Z.to_nat (aint a "number_of_vlrs"))
+              (skipn (Z.to_nat (aint a "header_size" - (len stream - len rest))) rest)) as [[vl rest3]|e]; [|discriminate].
+  cbn [bind].
+  destruct (len stream - len rest3 >? aint a "offset_to_point_data"); [discriminate|].
+  destruct (std_size (compressed_id_to_uncompressed (aint a "point_format_id"))) as [std|]; [|discriminate].
+  match goal with |- context [match ?X with Some _ => _ | None => Err ELaspy end] =>
+    destruct X as [fsz|]; [|discriminate] end.
+  destruct (aint a "point_size" <? fsz); [discriminate|].
+  destruct (aint a "number_of_evlrs" >? MAX_VLRS); [discriminate|].
+  match goal with |- bind ?E _ = _ -> _ => destruct E as [ev|e]; [|discriminate] end.
+  cbn [bind]. intros H. injection H as <-. cbn [rh_compressed rh_fmt rh_fields].
+  rewrite !aint_aset_other by reflexivity. split; reflexivity.
+Qed.
+
+Lemma format_id_name m : 1 <= m <= 4 -> In "point_format_id"%string (header_field_names m).
+Proof.
+  intros Hm. assert (m = 1 \/ m = 2 \/ m = 3 \/ m = 4) as [->|[->|[->| ->]]] by lia;
+  apply in_by_existsb; vm_compute; reflexivity.
+Qed.
+
+(* ------------------------------------------------------------------------------------ *)
+(* reading the header, VLRs and EVLRs of a file built around any payload, junk allowed after it *)
+(* ------------------------------------------------------------------------------------ *)
+Lemma gfile_read ap h vl fmt recs evl payload f h' junk :
+  gfile ap h vl fmt recs evl payload = Ok f -> gfinal_hdr ap h vl fmt recs evl payload = Ok h' ->
+  wf_header h' vl = true -> forallb (wf_vlr true) evl = true ->
+  (evl = [] \/ aint h "version.minor" >= 4) ->
+  exists rh bs eb, dec_header (f ++ junk) true = Ok rh
+    /\ dec_header (f ++ junk) false = Ok (with_vlrs rh (rh_vlrs rh) None)
+    /\ f = bs ++ payload ++ eb /\ enc_vlrs true evl = Ok eb
+    /\ rh_vlrs rh = vl /\ rh_offset rh = len bs /\ rh_psize rh = aint h' "point_size"
+    /\ rh_fmt rh = compressed_id_to_uncompressed (aint h' "point_format_id")
+    /\ rh_compressed rh = is_point_format_compressed (aint h' "point_format_id")
+    /\ rh_evlrs rh = (if aint h' "version.minor" >=? 4 then Some evl else None)
+    /\ aint (rh_fields rh) "point_count" = len recs
+    /\ 1 <= aint h' "version.minor" <= 4
+    /\ (evl = [] -> aint h' "number_of_evlrs" = 0)
+    /\ (evl <> [] -> aint h' "number_of_evlrs" = len evl /\ aint h' "start_of_first_evlr" = len bs + len payload)
+    /\ (forall n, In n (header_field_names (aint h' "version.minor")) -> aget (rh_fields rh) n = Some (wval h' n)).
+Proof.
+  intros Hf Hh Hwf Hwe Hev4.
+  destruct (gfile_inv _ _ _ _ _ _ _ _ _ Hf Hh) as (hh & bs & eb & E1 & Heb & Hfe & Hl & Hc & Hmn & _ & _ & Hev0 & Hev1).
+  destruct (dec_enc_header _ _ _ _ _ (payload ++ eb ++ junk) E1 Hwf)
+    as (rh & D0 & Rv & Roff & Rps & Rfmt & Rget & _).
+  assert (f ++ junk = bs ++ payload ++ eb ++ junk) as Hsrc by (rewrite Hfe, <- !app_assoc; reflexivity).
+  rewrite <- Hsrc in D0.
+  destruct (hdr_minor_enc _ _ _ _ _ (payload ++ eb ++ junk) E1) as [_ Hminor]. rewrite <- Hsrc in Hminor.
+  destruct (enc_header_raw _ _ _ _ _ E1) as (Hm & _).
+  set (m := aint h' "version.minor") in *.
+  assert (aint (rh_fields rh) "point_count" = len recs) as Hcnt.
+  { rewrite (aint_of_get _ h' "point_count" eq_refl eq_refl (Rget _ (point_count_name m Hm))). exact Hc. }
+  assert (aint (rh_fields rh) "point_format_id" = aint h' "point_format_id") as Hfid
+    by exact (aint_of_get _ h' "point_format_id" eq_refl eq_refl (Rget _ (format_id_name m Hm))).
+  assert (ev_part m (rh_fields rh) (f ++ junk) true = Ok (if m >=? 4 then Some evl else None)) as Hevp.
+  { unfold ev_part. destruct (m >=? 4) eqn:E4; [|reflexivity].
+    assert (m = 4) as M4 by lia. rewrite M4 in Rget. destruct evlr_names as [N1 N2].
+    rewrite (aint_of_get _ h' "number_of_evlrs" eq_refl eq_refl (Rget _ N1)).
+    rewrite (aint_of_get _ h' "start_of_first_evlr" eq_refl eq_refl (Rget _ N2)).
+    destruct evl as [|ev evl].
+    - rewrite (Hev0 eq_refl). reflexivity.
+    - destruct (Hev1 ltac:(discriminate)) as [A B]. rewrite A, B.
+      replace (len (ev :: evl) >? 0) with true by (unfold len; cbn [length]; lia).
+      rewrite <- len_app, !to_nat_len. rewrite Hsrc, app_assoc.
+      rewrite (skipn_app_exact (bs ++ payload) (eb ++ junk) _ eq_refl).
+      rewrite (dec_enc_vlrs true (ev :: evl) eb junk Hwe Heb). reflexivity. }
+  destruct (dec_header_shape (f ++ junk) true) as [(e & H1 & _)|(rh0 & H1 & _ & _ & H2)]; [rewrite D0 in H1; discriminate|].
+  rewrite D0 in H1. injection H1 as <-. rewrite Hminor, Hevp in H2. cbn [bind] in H2.
+  destruct (dec_header_comp _ _ _ D0) as [Hcomp _]. rewrite Hfid in Hcomp.
+  assert (rh_evlrs rh = None) as Hnone.
+  { destruct (dec_header_shape (f ++ junk) false) as [(e & H1 & _)|(rh0 & H1 & _ & _ & H3)]; [rewrite D0 in H1; discriminate|].
+    rewrite D0 in H1. injection H1 as <-. rewrite D0 in H3. unfold ev_part in H3.
+    destruct (hdr_minor (f ++ junk) >=? 4); cbn [bind] in H3; injection H3 as H3; now rewrite H3. }
+  eexists _, bs, eb. split; [exact H2|].
+  cbn [with_vlrs rh_fields rh_vlrs rh_evlrs rh_fmt rh_compressed rh_psize rh_offset].
+  split; [rewrite D0; destruct rh; cbn in *; now subst|].
+  repeat (split; [first [assumption|reflexivity]|]). exact Rget.
 Qed.
